@@ -77,7 +77,19 @@ impl CopyToFileExecutor {
 
         let mut rows = 0;
 
+        #[cfg(risinglight_verif)]
+        let mut verif_n = 0usize;
         while let Some(chunk) = recver.blocking_recv() {
+            // verif hook (C15): fault-injection point inside the blocking writer thread, detail =
+            // chunk index. `Action::Error` makes the writer fail, `Action::Panic` panics here.
+            #[cfg(risinglight_verif)]
+            {
+                let action = crate::verif::point_sync("exec.copy_to.chunk", &verif_n.to_string());
+                verif_n += 1;
+                if action == crate::verif::Action::Error {
+                    return Err(Error::aborted());
+                }
+            }
             for i in 0..chunk.cardinality() {
                 // TODO(wrj): avoid dynamic memory allocation (String)
                 let row = chunk.arrays().iter().map(|a| escaped(a.get_to_string(i)));
